@@ -10,7 +10,7 @@ OPS
   ["module", mid, name, style]             style proc|class|gen
   ["end", mid]
   ["sig", mid, name, width, vis, dir]      vis i|p ; dir n|i|o|io
-  ["bun", mid, name, bid, port, flipped]
+  ["bun", mid, name, bid, port, flipped, how?]   how: ctor | mul (a copy out of `3 * B()`) | flip (`flipped(B())`)
   ["inst", mid, iname, target, how, conns] how setattr|add ; conns {port: X}
   ["arr", mid, iname, target, n, how, conns]  how ctor|mul
   ["pair", mid, iname, target, conns]
@@ -78,6 +78,7 @@ class Interp:
     def __init__(self, h):
         self.h = h
         self.bundles = {"Diff": h.Diff}
+        self._bun_copies = {}
         self.ibtypes = {}
         self.exts = {}
         self.mods = {}
@@ -213,8 +214,21 @@ class Interp:
                 s = h.Signal(width=width)
             self._put(env, name, s)
         elif kind == "bun":
-            _, _, name, bid, port, flipped = op
-            self._put(env, name, self.bundles[bid](port=bool(port), flipped=bool(flipped)))
+            _, _, name, bid, port, flipped = op[:6]
+            how = op[6] if len(op) > 6 else "ctor"
+            B = self.bundles[bid]
+            if how == "mul":
+                # `n * B()`: copies of one bundle instance, handed out one by one
+                key = (id(env), bid, bool(port), bool(flipped))
+                spare = self._bun_copies.setdefault(key, [])
+                if not spare:
+                    spare.extend(3 * B(port=bool(port), flipped=bool(flipped)))
+                bi = spare.pop(0)
+            elif how == "flip":
+                bi = h.flipped(B(port=bool(port), flipped=not bool(flipped)))
+            else:
+                bi = B(port=bool(port), flipped=bool(flipped))
+            self._put(env, name, bi)
         elif kind == "inst":
             _, _, iname, target, how, conns = op
             t = self.target(target)
